@@ -24,6 +24,16 @@ type ConcCase struct {
 	Park  string   `json:"park"`  // yield point at which the first arriving goroutine is held ("" = none)
 	Force bool     `json:"force"` // stopcrash: ApplicationStopForce instead of ApplicationStop
 	Tags  []string `json:"tags"`
+	// startrace / startfail (startrace.go): the goroutine inside ApplicationStart is parked at the
+	// (Skip+1)-th arrival at Park; member i sends itself a message in Init and terminates with reason
+	// Self[i] (-1: stays); Stop: ApplicationStop is called while the start is parked;
+	// startfail: member Fail refuses to start while member Busy is inside a callback; Restart: start again at once
+	Self    []int `json:"self,omitempty"`
+	Skip    int   `json:"skip,omitempty"`
+	Stop    bool  `json:"stop,omitempty"`
+	Fail    int   `json:"fail,omitempty"`
+	Busy    int   `json:"busy,omitempty"`
+	Restart bool  `json:"restart,omitempty"`
 }
 
 type ConcObs struct {
@@ -303,6 +313,10 @@ func mainConc(out *util.Out, n int, replay string, known []string) {
 		cases = []ConcCase{c}
 	} else {
 		cases = concCorpus()
+		cases = append(cases, startRaceCorpus()...)
+		if hasTag(known, "rollback-busy") {
+			cases = append(cases, startFailCorpus()...)
+		}
 		r := util.Rng(23)
 		for i := 0; i < n; i++ {
 			c := ConcCase{Mode: 1 + r.Intn(3), N: 1 + r.Intn(4)}
@@ -328,6 +342,27 @@ func mainConc(out *util.Out, n int, replay string, known []string) {
 	for _, c := range cases {
 		if c.Tags == nil {
 			c.Tags = []string{}
+		}
+		if c.Kind == "startrace" || c.Kind == "startfail" {
+			o := runStartRace(node, c)
+			idx := out.Add("", struct {
+				ConcCase
+				Obs StartObs `json:"obs"`
+			}{c, o})
+			out.Stats["runs"]++
+			out.Stats["kind:"+c.Kind]++
+			out.Stats[fmt.Sprintf("mode:%d", c.Mode)]++
+			if o.Parked {
+				out.Stats["parked"]++
+			}
+			judge := judgeStartRace
+			if c.Kind == "startfail" {
+				judge = judgeStartFail
+			}
+			for _, b := range judge(c, o) {
+				out.Monitor = append(out.Monitor, util.MonitorFail{Case: idx, What: fmt.Sprintf("%s mode %d n %d self %v park %q skip %d stop %v: %s", c.Kind, c.Mode, c.N, c.Self, c.Park, c.Skip, c.Stop, b), Tags: c.Tags})
+			}
+			continue
 		}
 		o := runConc(node, c)
 		idx := out.Add("", struct {
